@@ -198,9 +198,24 @@ def make_dist(c, seed_shift=0):
     return bd.perturb(d, float(c["pscale"]) * 0.3, sd)
 
 
+def _train(d, c, shift=0):
+    """Two epochs of fit_to_data with return_best=True: the model a user actually jits / serialises afterwards."""
+    from flowjax.train import fit_to_data
+    import optax
+    if d.cond_shape is not None or c["dist"] in ("block_neural_autoregressive_flow",) and not c["invert"]:
+        return d
+    x = d.sample(jr.PRNGKey(int(c["seed"]) + 11 + shift), (16,))
+    out, _ = fit_to_data(jr.PRNGKey(int(c["seed"]) + 12 + shift), d, x, max_epochs=2, batch_size=6, val_prop=0.25,
+                         optimizer=optax.sgd(1e-3), show_progress=False, return_best=True)
+    return out
+
+
 def check_dist(c, ctx):
     d = make_dist(c)
     d2 = make_dist(c, 1)
+    if c.get("trained"):
+        d, d2 = lib_call("C14|dist|fit_to_data", _train, d, c), lib_call("C14|dist|fit_to_data", _train, d2, c, 1)
+        ctx.hist("trained_dist", c["dist"])
     who = f"dist|{c['dist']}"
     static_audit(d, who)
     cond = d.cond_shape
@@ -259,7 +274,8 @@ def dist_cases(draw):
                               "MVN", "Mixture"] + bd.FACTORIES))
     return {"dist": k, "dim": draw(st.integers(2, 3)), "cond": draw(st.sampled_from([None, 2])) if k in bd.FACTORIES else None,
             "invert": draw(st.booleans()), "seed": draw(st.integers(0, 999)), "key": draw(st.integers(0, 10**6)),
-            "pscale": draw(st.sampled_from([0.0, 0.3])), "craw": draw(st.lists(st.floats(-2, 2), min_size=4, max_size=4))}
+            "pscale": draw(st.sampled_from([0.0, 0.3])), "craw": draw(st.lists(st.floats(-2, 2), min_size=4, max_size=4)),
+            "trained": draw(st.booleans())}
 
 
 def run(ctx):
